@@ -1,6 +1,9 @@
 import NucleoVerif.Model.Matcher
 import NucleoVerif.Spec.Matcher
 import NucleoVerif.Props.C16
+import NucleoVerif.Props.C03
+import NucleoVerif.Lemmas.Scan
+import NucleoVerif.Lemmas.Subseq
 /-! # C05 — substring, prefix, postfix and exact matching decide the documented relations
 
 Status: the specification's occurrence list is characterised (`occAux_mem`), the trimming
@@ -515,6 +518,442 @@ theorem C05_exact (cfg : Cfg) (ext : Ext) (hrep nrep : Rep) (h : List Nat) (n0 :
     rw [Bool.and_comm]
     congr 1
     by_cases e : L = h.length - l - t <;> simp [e, eq_comm]
+
+
+
+/-! ## substring matching (ASCII haystack): leftmost occurrence with the best first-character bonus -/
+
+theorem Best.offer_ok (cfg : Cfg) (b : Best) (pos bonus : Nat) (ok : Bool) :
+    b.offer cfg pos bonus ok = if ok then b.offer cfg pos bonus true else b := by
+  cases ok <;> simp [Best.offer]
+
+theorem ite_and_bool {α : Type} (c r : Bool) (A B : α) :
+    (if c = true then (if r = true then A else B) else B) = (if (c && r) = true then A else B) := by
+  cases c <;> cases r <;> rfl
+
+/-- the acceptance test of `substring_match_ascii` at one position: prefilter hit, then the rest of the needle -/
+def subAcc (cfg : Cfg) (n : List Nat) (limit k : Nat) (ic : Bool) (pos : Nat) (s : List Nat) : Bool :=
+  (decide (pos < limit) && (if ic then asciiEq true (n.headD 0) (s.headD 0) else (s.take k == n.take k))) && restEqAscii cfg s n k
+
+theorem substringAscii_go_eq (cfg : Cfg) (n : List Nat) (limit k : Nat) (ic : Bool) :
+    ∀ (xs : List Nat) (b : Best) (prev : CharClass) (pos : Nat),
+      substringAscii.go cfg n k ic limit b prev pos xs = scanS cfg (subAcc cfg n limit k ic) (charClassAscii cfg) b prev pos xs := by
+  intro xs
+  induction xs with
+  | nil => intro _ _ _; rfl
+  | cons x xs ih =>
+    intro b prev pos
+    simp only [substringAscii.go, scanS]
+    rw [ih]
+    congr 1
+    rw [Best.offer_ok]
+    unfold subAcc
+    simp only [List.headD_cons]
+    exact ite_and_bool _ _ _ _
+
+open NucleoVerif.Sub in
+/-- a needle character that is already normalized and is not a lower-case letter under case folding is matched
+    by raw equality -/
+theorem norm_eq_iff_raw (cfg : Cfg) (c : Nat) (hc : normAscii cfg c = c) (hl : ¬ (cfg.ignoreCase = true ∧ 97 ≤ c ∧ c ≤ 122)) (x : Nat) :
+    normAscii cfg x = c ↔ x = c := by
+  unfold normAscii at *
+  by_cases hi : cfg.ignoreCase = true
+  · simp only [hi, true_and] at hc hl ⊢
+    constructor
+    · intro h
+      split at h
+      · split at hc <;> omega
+      · exact h
+    · intro h; subst h; exact hc
+  · simp [hi]
+
+theorem map_norm_eq_iff_raw (cfg : Cfg) : ∀ (p q : List Nat), (∀ c ∈ q, normAscii cfg c = c) →
+    (∀ c ∈ q, ¬ (cfg.ignoreCase = true ∧ 97 ≤ c ∧ c ≤ 122)) → ((p.map (normAscii cfg) == q) = (p == q)) := by
+  intro p
+  induction p with
+  | nil => intro q _ _; cases q <;> rfl
+  | cons x xs ih =>
+    intro q hq hl
+    cases q with
+    | nil => rfl
+    | cons c cs =>
+      have h1 := norm_eq_iff_raw cfg c (hq c (by simp)) (hl c (by simp)) x
+      have h2 := ih cs (fun d hd => hq d (by simp [hd])) (fun d hd => hl d (by simp [hd]))
+      simp only [List.map_cons, List.cons_beq_cons]
+      rw [h2]
+      congr 1
+      by_cases e : x = c
+      · have := h1.mpr e
+        rw [beq_iff_eq.mpr this, beq_iff_eq.mpr e]
+      · have hne : ¬ (normAscii cfg x = c) := fun h => e (h1.mp h)
+        have b1 : (normAscii cfg x == c) = false := by simpa using hne
+        have b2 : (x == c) = false := by simpa using e
+        rw [b1, b2]
+
+/-- splitting a prefix comparison at `k` -/
+theorem take_eq_split (a n : List Nat) (k : Nat) : (a == n) = ((a.take k == n.take k) && (a.drop k == n.drop k)) := by
+  by_cases h : a = n
+  · subst h; simp
+  · have : ¬ (a.take k = n.take k ∧ a.drop k = n.drop k) := by
+      intro ⟨h1, h2⟩
+      apply h
+      rw [← List.take_append_drop k a, ← List.take_append_drop k n, h1, h2]
+    have b0 : (a == n) = false := by simpa using h
+    rw [b0]
+    by_cases h1 : a.take k = n.take k
+    · have h2 : ¬ (a.drop k = n.drop k) := fun e => this ⟨h1, e⟩
+      have b2 : (a.drop k == n.drop k) = false := by simpa using h2
+      rw [b2, Bool.and_false]
+    · have b1 : (a.take k == n.take k) = false := by simpa using h1
+      rw [b1, Bool.false_and]
+
+open NucleoVerif.Sub in
+/-- **the acceptance test of `substring_match_ascii` is "the needle occurs here"** — for an already-normalized needle,
+    whatever prefilter shape (`memchr` on one character case-insensitively, raw comparison of the leading non-letters,
+    raw comparison of the whole needle) the code selected -/
+theorem subAcc_eq_occ (cfg : Cfg) (n0 : Nat) (ns : List Nat) (hn : ∀ c ∈ n0 :: ns, normAscii cfg c = c)
+    (limit pos : Nat) (s : List Nat) (hlim : pos < limit ↔ (n0 :: ns).length ≤ s.length) :
+    subAcc cfg (n0 :: ns) limit (substringKIC cfg (n0 :: ns)).1 (substringKIC cfg (n0 :: ns)).2 pos s =
+      ((s.take (n0 :: ns).length).map (normAscii cfg) == n0 :: ns) := by
+  generalize hN : n0 :: ns = n at *
+  have hnpos : 0 < n.length := by rw [← hN]; simp
+  -- the right-hand side already implies the length condition
+  have hrhs : ((s.take n.length).map (normAscii cfg) == n) = true → pos < limit := by
+    intro h
+    rw [beq_iff_eq] at h
+    have := congrArg List.length h
+    simp only [List.length_map, List.length_take] at this
+    exact hlim.mpr (by omega)
+  -- general shape: raw comparison of the first k characters (all non-letters), normalized comparison of the rest
+  have general : ∀ k, k ≤ n.length → (∀ c ∈ n.take k, ¬ (cfg.ignoreCase = true ∧ 97 ≤ c ∧ c ≤ 122)) →
+      subAcc cfg n limit k false pos s = ((s.take n.length).map (normAscii cfg) == n) := by
+    intro k hk hnl
+    unfold subAcc restEqAscii
+    simp only [Bool.false_eq_true, if_false]
+    have hsplit := take_eq_split ((s.take n.length).map (normAscii cfg)) n k
+    have e1 : ((s.take n.length).map (normAscii cfg)).take k = (s.take k).map (normAscii cfg) := by
+      rw [← List.map_take, List.take_take]; congr 2; omega
+    have e2 : ((s.take n.length).map (normAscii cfg)).drop k = ((s.drop k).take (n.length - k)).map (normAscii cfg) := by
+      rw [← List.map_drop, List.drop_take]
+    rw [e1, e2] at hsplit
+    have hraw := map_norm_eq_iff_raw cfg (s.take k) (n.take k)
+      (fun c hc => hn c (by rw [← hN] at *; exact (List.take_subset k _ hc))) hnl
+    rw [hraw] at hsplit
+    rw [hsplit]
+    by_cases hb : ((s.take k == n.take k) && (((s.drop k).take (n.length - k)).map (normAscii cfg) == n.drop k)) = true
+    · have : pos < limit := hrhs (by rw [hsplit]; exact hb)
+      simp only [this, decide_true, Bool.true_and]
+    · have hb' : ((s.take k == n.take k) && (((s.drop k).take (n.length - k)).map (normAscii cfg) == n.drop k)) = false := by simpa using hb
+      rw [hb']
+      cases decide (pos < limit)
+      · simp
+      · simpa using hb'
+  unfold substringKIC
+  by_cases hi : cfg.ignoreCase = true
+  · simp only [hi, if_true]
+    cases hf : findIdx (fun c => 97 ≤ c && c ≤ 122) n with
+    | none =>
+      -- no lower-case letter at all: the whole needle is compared raw
+      simp only
+      apply general n.length (Nat.le_refl _)
+      intro c hc hl
+      have := findIdx_none _ n hf c (List.take_subset _ _ hc)
+      simp at this; omega
+    | some len =>
+      have hfs := findIdx_some _ n len hf
+      have hnl : ∀ c ∈ n.take len, ¬ (cfg.ignoreCase = true ∧ 97 ≤ c ∧ c ≤ 122) := by
+        intro c hc hl
+        have := hfs.2.2 c hc
+        simp at this; omega
+      match len, hfs, hnl with
+      | 0, _, _ =>
+        -- the first character is a letter: case-insensitive single-character prefilter
+        simp only
+        unfold subAcc restEqAscii
+        simp only [if_true]
+        have hsplit := take_eq_split ((s.take n.length).map (normAscii cfg)) n 1
+        have e1 : ((s.take n.length).map (normAscii cfg)).take 1 = (s.take 1).map (normAscii cfg) := by
+          rw [← List.map_take, List.take_take]; congr 2; omega
+        have e2 : ((s.take n.length).map (normAscii cfg)).drop 1 = ((s.drop 1).take (n.length - 1)).map (normAscii cfg) := by
+          rw [← List.map_drop, List.drop_take]
+        rw [e1, e2] at hsplit
+        rw [hsplit]
+        have hn0 : normAscii cfg n0 = n0 := hn n0 (by rw [← hN]; simp)
+        have hhead : n.headD 0 = n0 := by rw [← hN]; rfl
+        have htake : n.take 1 = [n0] := by rw [← hN]; rfl
+        rw [hhead, htake]
+        cases s with
+        | nil =>
+          have : ¬ (pos < limit) := by
+            intro hp
+            have h0 := hlim.mp hp
+            have hz : ([] : List Nat).length = 0 := rfl
+            rw [hz] at h0
+            omega
+          simp [this]
+        | cons x xs =>
+          simp only [List.headD_cons, List.take_succ_cons, List.take_zero, List.map_cons, List.map_nil]
+          have hx : asciiEq true n0 x = (normAscii cfg x == n0) := by
+            have := asciiEq_iff cfg n0 x hn0
+            rw [hi] at this
+            by_cases e : normAscii cfg x = n0
+            · rw [this.mpr e, beq_iff_eq.mpr e]
+            · have : asciiEq true n0 x = false := by
+                cases ha : asciiEq true n0 x with
+                | false => rfl
+                | true => exact absurd (this.mp ha) e
+              rw [this]; symm; simpa using e
+          rw [hx]
+          have hcons : ([normAscii cfg x] == [n0]) = (normAscii cfg x == n0) := by simp
+          rw [hcons]
+          by_cases hb : ((normAscii cfg x == n0) && (((x :: xs).drop 1).take (n.length - 1)).map (normAscii cfg) == n.drop 1) = true
+          · have : pos < limit := hrhs (by rw [hsplit, htake]; simpa using hb)
+            simp only [this, decide_true, Bool.true_and]
+          · have hb' : ((normAscii cfg x == n0) && (((x :: xs).drop 1).take (n.length - 1)).map (normAscii cfg) == n.drop 1) = false := by simpa using hb
+            rw [hb']
+            cases decide (pos < limit)
+            · simp
+            · simpa using hb'
+      | 1, hfs, hnl => exact general 1 (by omega) hnl
+      | len + 2, hfs, hnl => exact general (len + 2) (by have := hfs.1; omega) hnl
+  · -- case is respected: raw comparison of the whole needle
+    simp only [hi, Bool.false_eq_true, if_false]
+    apply general n.length (Nat.le_refl _)
+    intro c _ hl; exact hi hl.1
+
+/-- the positions accepted by the scan are exactly the specification's occurrence list -/
+theorem candsS_positions (cfg : Cfg) (h : List Nat) (n0 : Nat) (ns : List Nat) (hn : ∀ c ∈ n0 :: ns, normAscii cfg c = c)
+    (hlen : (n0 :: ns).length ≤ h.length) (cl : Nat → CharClass) :
+    ∀ (xs : List Nat) (prev : CharClass) (pos : Nat), pos + xs.length = h.length →
+      (candsS cfg (subAcc cfg (n0 :: ns) (h.length - (n0 :: ns).length + 1) (substringKIC cfg (n0 :: ns)).1 (substringKIC cfg (n0 :: ns)).2)
+        cl prev pos xs).map (·.1) = occAux (n0 :: ns) pos (xs.map (normAscii cfg)) := by
+  intro xs
+  induction xs with
+  | nil => intro _ _ _; simp [candsS, occAux]
+  | cons x xs ih =>
+    intro prev pos hp
+    simp only [candsS, List.map_append, List.map_cons, occAux]
+    rw [ih (cl x) (pos + 1) (by simp at hp; omega)]
+    congr 1
+    have hacc := subAcc_eq_occ cfg n0 ns hn (h.length - (n0 :: ns).length + 1) pos (x :: xs)
+      (by simp only [List.length_cons] at hp hlen ⊢; omega)
+    rw [hacc]
+    have : ((x :: xs).take (n0 :: ns).length).map (normAscii cfg) = (normAscii cfg x :: xs.map (normAscii cfg)).take (n0 :: ns).length := by
+      rw [List.map_take]; rfl
+    rw [this]
+    split <;> simp
+
+/-- each candidate's score is `16 + 2 ·` the specification's first-character bonus at its position -/
+theorem candsS_score (cfg : Cfg) (ext : Ext) (h : List Nat) (acc : Nat → List Nat → Bool) (cl : Nat → CharClass) :
+    ∀ (xs : List Nat) (prev : CharClass) (pos : Nat),
+      (∀ k c, xs[k]? = some c → h[pos + k]? = some c) → prev = prevClassAt cfg ext h pos →
+      (∀ x ∈ xs, cl x = charClass cfg ext x) →
+      ∀ ps ∈ candsS cfg acc cl prev pos xs, ps.2 = firstBonus cfg ext h ps.1 * 2 + 16 := by
+  intro xs
+  induction xs with
+  | nil => intro _ _ _ _ _ ps h; simp [candsS] at h
+  | cons x xs ih =>
+    intro prev pos hxs hprev hcl ps hps
+    have h0 : h[pos]? = some x := by simpa using hxs 0 x (by simp)
+    simp only [candsS, List.mem_append] at hps
+    rcases hps with hps | hps
+    · split at hps
+      · simp only [List.mem_singleton] at hps
+        subst hps
+        simp only [firstBonus, h0, Option.map_some, Option.getD_some, hcl x (by simp), hprev, C03_bonusFor_eq_spec,
+          BONUS_FIRST_CHAR_MULTIPLIER, SCORE_MATCH]
+        have : prevClassAt cfg ext h pos = (if pos = 0 then cfg.initial else (h[pos - 1]?.map (charClass cfg ext)).getD cfg.initial) := by
+          unfold prevClassAt
+          split
+          · rfl
+          · cases h[pos - 1]? <;> rfl
+        rw [this]
+      · simp at hps
+    · apply ih (cl x) (pos + 1) _ _ (fun y hy => hcl y (by simp [hy])) ps hps
+      · intro k c hk
+        have := hxs (k + 1) c (by simpa using hk)
+        have e : pos + (k + 1) = pos + 1 + k := by omega
+        rw [e] at this; exact this
+      · unfold prevClassAt
+        simp only [Nat.add_sub_cancel, h0, hcl x (by simp)]
+        simp
+
+/-- the occurrence list is strictly increasing and starts at `base` or later -/
+theorem occAux_sorted (n : List Nat) : ∀ (l : List Nat) (base : Nat),
+    (occAux n base l).Pairwise (· < ·) ∧ ∀ i ∈ occAux n base l, base ≤ i := by
+  intro l
+  induction l with
+  | nil => intro base; simp only [occAux]; split <;> simp
+  | cons c cs ih =>
+    intro base
+    have ih' := ih (base + 1)
+    simp only [occAux]
+    refine ⟨?_, ?_⟩
+    · rw [List.pairwise_append]
+      refine ⟨by split <;> simp, ih'.1, ?_⟩
+      intro a ha b hb
+      split at ha
+      · simp only [List.mem_singleton] at ha; subst ha; have := ih'.2 b hb; omega
+      · simp at ha
+    · intro i hi
+      simp only [List.mem_append] at hi
+      rcases hi with hi | hi
+      · split at hi
+        · simp only [List.mem_singleton] at hi; omega
+        · simp at hi
+      · have := ih'.2 i hi; omega
+
+/-- one step of the specification's fold -/
+def bestStep (f : Nat → Nat) (best : Option Nat) (i : Nat) : Option Nat :=
+  match best with
+  | none => some i
+  | some b => if f i > f b then some i else some b
+
+theorem bestOccurrence_eq_fold (cfg : Cfg) (ext : Ext) (hrep : Rep) (h n : List Nat) :
+    bestOccurrence cfg ext hrep h n = (occurrences cfg hrep h n).foldl (bestStep (firstBonus cfg ext h)) none := by
+  unfold bestOccurrence
+  congr 1
+
+/-- what the specification's fold over a strictly increasing candidate list returns: nothing for the empty list,
+    otherwise the leftmost candidate with the maximal value -/
+theorem bestFold_spec (f : Nat → Nat) :
+    ∀ (l : List Nat) (b0 : Nat), l.Pairwise (· < ·) → (∀ i ∈ l, b0 < i) →
+      ∀ (P : List Nat), b0 ∈ P → (∀ i ∈ P, f i ≤ f b0 ∧ (f i = f b0 → b0 ≤ i)) → (∀ i ∈ P, i ≤ b0 ∨ True) →
+      ∃ b, l.foldl (bestStep f) (some b0) = some b ∧
+        b ∈ P ++ l ∧ ∀ i ∈ P ++ l, f i ≤ f b ∧ (f i = f b → b ≤ i) := by
+  intro l
+  induction l with
+  | nil => intro b0 _ _ P hb hP _; exact ⟨b0, rfl, by simpa using hb, by simpa using hP⟩
+  | cons x xs ih =>
+    intro b0 hpw hgt P hb hP _
+    have hpw' := List.pairwise_cons.mp hpw
+    have hx := hgt x (by simp)
+    simp only [List.foldl_cons, bestStep]
+    by_cases hfx : f x > f b0
+    · simp only [hfx, if_true]
+      have := ih x hpw'.2 (fun i hi => hpw'.1 i hi) (P ++ [x]) (by simp)
+        (by intro i hi
+            simp only [List.mem_append, List.mem_singleton] at hi
+            rcases hi with hi | hi
+            · have := hP i hi; exact ⟨by omega, by omega⟩
+            · subst hi; exact ⟨Nat.le_refl _, fun _ => Nat.le_refl _⟩)
+        (fun _ _ => Or.inr trivial)
+      simpa using this
+    · simp only [hfx, if_false]
+      have := ih b0 hpw'.2 (fun i hi => by have := hpw'.1 i hi; omega) (P ++ [x]) (by simp [hb])
+        (by intro i hi
+            simp only [List.mem_append, List.mem_singleton] at hi
+            rcases hi with hi | hi
+            · exact hP i hi
+            · subst hi; exact ⟨by omega, fun _ => by omega⟩)
+        (fun _ _ => Or.inr trivial)
+      simpa using this
+
+/-- the first index `calculate_score` reports is the window's start -/
+theorem calculateScore_head (cfg : Cfg) (ext : Ext) (hrep : Rep) (h : List Nat) (n0 : Nat) (nrest : List Nat) (start end_ : Nat)
+    (hst : start < h.length) : (calculateScore cfg ext hrep h (n0 :: nrest) start end_).2.head? = some start := by
+  unfold calculateScore
+  have hd : h.drop start = h[start] :: h.drop (start + 1) := by rw [List.drop_eq_getElem_cons hst]
+  rw [hd]
+  simp only
+  unfold csRun
+  obtain ⟨new, hnew⟩ := csLoop_idx_suffix cfg ext hrep ((h.drop (start + 1)).take (end_ - (start + 1)))
+    { st := stInit cfg (prevClassAt cfg ext h start) (charClass cfg ext h[start]),
+      needleChar := (needleAfterFirst n0 nrest).1, rest := (needleAfterFirst n0 nrest).2, idxRev := [start] } (start + 1)
+  rw [hnew]
+  simp
+
+/-- **substring matching on an ASCII haystack succeeds exactly when the needle occurs contiguously in the normalized
+    haystack, and reports the leftmost occurrence whose first character earns the highest bonus** — every
+    configuration whose largest boundary bonus is at least 8 (all presets), every ASCII haystack, every
+    already-normalized needle no longer than the haystack -/
+theorem C05_substring_ascii (cfg : Cfg) (ext : Ext) (h : List Nat) (n0 : Nat) (ns : List Nat)
+    (hb : 8 ≤ maxBonus cfg) (hasc : ∀ x ∈ h, x < 128) (hn : ∀ c ∈ n0 :: ns, normAscii cfg c = c)
+    (hlen : (n0 :: ns).length ≤ h.length) :
+    (substringAscii cfg ext h (n0 :: ns)).isSome = !(occurrences cfg .ascii h (n0 :: ns)).isEmpty ∧
+    ∀ sc idx, substringAscii cfg ext h (n0 :: ns) = some (sc, idx) → idx.head? = bestOccurrence cfg ext .ascii h (n0 :: ns) := by
+  generalize hacc : subAcc cfg (n0 :: ns) (h.length - (n0 :: ns).length + 1) (substringKIC cfg (n0 :: ns)).1 (substringKIC cfg (n0 :: ns)).2 = acc
+  have hposn := candsS_positions cfg h n0 ns hn hlen (charClassAscii cfg) h cfg.initial 0 (by simp)
+  rw [hacc] at hposn
+  have hsc := candsS_score cfg ext h acc (charClassAscii cfg) h cfg.initial 0
+    (by intro k c hk; simpa using hk) (by simp [prevClassAt]) (by intro x hx; simp [charClass, hasc x hx])
+  have inv := scanS_inv cfg hb acc (charClassAscii cfg) h ⟨0, 0, false⟩ cfg.initial 0 []
+    ⟨by simp, Or.inl rfl, by simp⟩ (by simp)
+  simp only [List.nil_append] at inv
+  have hocc : occurrences cfg .ascii h (n0 :: ns) = (candsS cfg acc (charClassAscii cfg) cfg.initial 0 h).map (·.1) := by
+    rw [hposn]; rfl
+  unfold substringAscii
+  simp only
+  rw [substringAscii_go_eq, hacc]
+  generalize scanS cfg acc (charClassAscii cfg) ⟨0, 0, false⟩ cfg.initial 0 h = b at inv
+  generalize hC : candsS cfg acc (charClassAscii cfg) cfg.initial 0 h = C at *
+  have hpos16 : ∀ ps ∈ C, 16 ≤ ps.2 := by
+    intro ps hps; rw [hsc ps hps]; omega
+  by_cases hz : b.score = 0
+  · -- nothing accepted
+    rw [if_pos hz]
+    have hCnil : C = [] := by
+      cases C with
+      | nil => rfl
+      | cons ps t =>
+        have := inv.upper ps (by simp)
+        have := hpos16 ps (by simp)
+        omega
+    refine ⟨by rw [hocc, hCnil]; rfl, by intro _ _ hh; cases hh⟩
+  · rw [if_neg hz]
+    rcases inv.attained with z | ⟨a1, a2⟩
+    · exact absurd z hz
+    · have hne : C ≠ [] := by intro e; rw [e] at a1; simp at a1
+      refine ⟨?_, ?_⟩
+      · rw [hocc]
+        cases C with
+        | nil => exact absurd rfl hne
+        | cons _ _ => rfl
+      · intro sc idx hh
+        simp only [Option.some.injEq] at hh
+        -- the reported first index is the scan's position
+        have hbpos : b.pos < h.length := by
+          have hm : b.pos ∈ occurrences cfg .ascii h (n0 :: ns) := by
+            rw [hocc]; exact List.mem_map.mpr ⟨(b.pos, b.score), a1, rfl⟩
+          unfold occurrences at hm
+          have := (occAux_mem (n0 :: ns) (normHay cfg .ascii h) 0 b.pos).mp hm
+          simp only [normHay, List.length_map, List.length_cons, Nat.sub_zero] at this
+          omega
+        have hhead := calculateScore_head cfg ext .ascii h n0 ns b.pos (b.pos + (n0 :: ns).length) hbpos
+        rw [hh] at hhead
+        simp only at hhead
+        rw [hhead]
+        -- the specification's fold picks the same position
+        rw [bestOccurrence_eq_fold, hocc]
+        have hsorted := occAux_sorted (n0 :: ns) (normHay cfg .ascii h) 0
+        have hsrt : (C.map (·.1)).Pairwise (· < ·) := by rw [← hocc]; exact hsorted.1
+        cases hCl : C.map (·.1) with
+        | nil => simp at hCl; exact absurd hCl hne
+        | cons i0 rest =>
+          rw [hCl] at hsrt
+          have hpw' := List.pairwise_cons.mp hsrt
+          simp only [List.foldl_cons, bestStep]
+          obtain ⟨r, hr1, hr2, hr3⟩ := bestFold_spec (firstBonus cfg ext h) rest i0 hpw'.2 (fun i hi => hpw'.1 i hi) [i0] (by simp)
+            (by intro i hi; simp only [List.mem_singleton] at hi; subst hi; exact ⟨Nat.le_refl _, fun _ => Nat.le_refl _⟩)
+            (fun _ _ => Or.inr trivial)
+          rw [hr1]
+          congr 1
+          -- both are the leftmost maximiser of the first-character bonus among the occurrences
+          have hall : ∀ i, i ∈ [i0] ++ rest ↔ ∃ ps ∈ C, ps.1 = i := by
+            intro i
+            have : [i0] ++ rest = C.map (·.1) := by rw [hCl]; rfl
+            rw [this, List.mem_map]
+          obtain ⟨psr, hpsr, hpsr1⟩ := (hall r).mp hr2
+          have hbm : b.pos ∈ [i0] ++ rest := (hall b.pos).mpr ⟨(b.pos, b.score), a1, rfl⟩
+          have fb_b : b.score = firstBonus cfg ext h b.pos * 2 + 16 := hsc _ a1
+          have fb_r : psr.2 = firstBonus cfg ext h r * 2 + 16 := by rw [hsc _ hpsr, hpsr1]
+          have h1 := hr3 b.pos hbm          -- f b.pos ≤ f r, and equality ⇒ r ≤ b.pos
+          have h2 := inv.upper psr hpsr      -- psr.2 ≤ b.score
+          have hfeq : firstBonus cfg ext h r = firstBonus cfg ext h b.pos := by omega
+          have h3 := a2 psr hpsr (by rw [fb_r, fb_b, hfeq])   -- b.pos ≤ psr.1 = r
+          have h4 := h1.2 hfeq.symm
+          rw [hpsr1] at h3
+          omega
 
 
 end NucleoVerif
